@@ -95,7 +95,13 @@ class Probe(SourceProxy):
                 sel, trigger=self._make_emitter(sel), pass_info=True
             )
         else:
-            return Total(sel, close=self._make_emitter(sel))
+            emitter = self._make_emitter(sel)
+            if emitter == self._emit2:
+                raise ValueError(
+                    "Unsupported focus pattern for the 'total' probe type:"
+                    f" {set(sel.all_tags)}"
+                )
+            return Total(sel, close=emitter)
 
     def _install_tooling(self):
         done = []
